@@ -155,12 +155,26 @@ func (d *Dispatch) Feed(vchannel string, pack *msgstream.MsgPack, timeout time.D
 }
 
 // Factory implements msgstream.Factory; its streams only answer what CheckConnection needs.
-type Factory struct{ FailConnect bool }
+type Factory struct {
+	FailConnect bool
+	// FailChannelPrefix: consuming a physical channel whose name starts with it fails (a shard whose stream cannot be opened)
+	FailChannelPrefix string
+}
 
-type nopStream struct{ msgstream.MsgStream }
+type nopStream struct {
+	msgstream.MsgStream
+	f *Factory
+}
 
 func (nopStream) Close() {}
-func (nopStream) AsConsumer(ctx context.Context, channels []string, subName string, position common.SubscriptionInitialPosition) error {
+func (n nopStream) AsConsumer(ctx context.Context, channels []string, subName string, position common.SubscriptionInitialPosition) error {
+	if n.f != nil && n.f.FailChannelPrefix != "" {
+		for _, c := range channels {
+			if strings.HasPrefix(c, n.f.FailChannelPrefix) {
+				return errors.New("injected mq consume failure on " + c)
+			}
+		}
+	}
 	return nil
 }
 func (nopStream) Seek(ctx context.Context, msgPositions []*msgstream.MsgPosition, includeCurrentMsg bool) error {
@@ -172,7 +186,7 @@ func (f *Factory) NewMsgStream(ctx context.Context) (msgstream.MsgStream, error)
 	if f.FailConnect {
 		return nil, errors.New("injected mq connect failure")
 	}
-	return nopStream{}, nil
+	return nopStream{f: f}, nil
 }
 func (f *Factory) NewTtMsgStream(ctx context.Context) (msgstream.MsgStream, error) {
 	return f.NewMsgStream(ctx)
